@@ -262,6 +262,14 @@ pub fn check_bc(bc: &BuildCase, obs: &mut Obs) -> Result<(), Fail> {
 /// option, so the mode in effect is the reference classification of the text; `qr` has no options at all (level Q,
 /// automatic version). A forced version is used as given or the call fails (`Err` / empty output) - it is never
 /// replaced by another version.
+#[cfg(not(fast_qr_verif))]
+pub fn check_entry(_c: &Case, obs: &mut Obs) -> Result<(), Fail> {
+    // the pass over fast_qr built WITHOUT the verification flag has no host-compiled wasm module
+    obs.label("wasm_entry_points:not_in_the_plain_build");
+    Ok(())
+}
+
+#[cfg(fast_qr_verif)]
 pub fn check_entry(c: &Case, obs: &mut Obs) -> Result<(), Fail> {
     use fast_qr::verif_wasm_host as wasm;
     let text: Vec<u8> = match c.mode {
